@@ -164,3 +164,56 @@ func pathpreInit04() {
 	dm.SetVSRootDir("/w")
 	dm.InitMainDir()
 }
+
+// C04-f: reference and rename ranges of a workspace-wide symbol belong to the document they are reported for,
+// also when the workspace has more files than the reference search has workers (a worker then handles
+// several files). The global function is defined in a.lua and called once in each of FILES-1 other files, in
+// every file on another line and at another column; every returned (document, range) pair must show the
+// identifier in that document's text.
+func VerifRun_C04f() {
+	nf := verifParam("FILES")
+	n1 := verifByteIn("n1", "ab")
+	name := "Fo" + string([]byte{n1})
+	files := make([]string, nf)
+	srcs := make([][]byte, nf)
+	files[0] = "/w/a.lua"
+	srcs[0] = []byte("function " + name + "(n) return n end\n")
+	for k := 1; k < nf; k++ {
+		files[k] = "/w/m" + string([]byte{'0' + byte(k)}) + ".lua"
+		s := ""
+		for j := 0; j < k; j++ {
+			s += "-- line " + string([]byte{'0' + byte(j)}) + "\n"
+		}
+		pad := ""
+		for j := 0; j < k; j++ {
+			pad += " "
+		}
+		s += "do\n" + pad + "print(" + name + "(" + string([]byte{'0' + byte(k)}) + "))\nend\n"
+		srcs[k] = []byte(s)
+	}
+	pathpreInit04()
+	p, _ := vpProject(files, srcs)
+	for _, mode := range []common.CheckReferenceSrc{common.CRSReference, common.CRSRename} {
+		vs := GetVarStruct(srcs[0], 10, 0, 10)
+		refs := p.FindReferences(files[0], &vs, mode)
+		verifReach("references")
+		if len(refs) < nf-1 {
+			verifViolation("", "a workspace-wide reference search misses files")
+		}
+		for _, d := range refs {
+			var dsrc []byte
+			for k := range files {
+				if files[k] == d.StrFile {
+					dsrc = srcs[k]
+				}
+			}
+			if dsrc == nil {
+				verifViolation("", "a reference is reported for a document that is not in the workspace")
+				continue
+			}
+			if x, ok := c04text(dsrc, d.Loc.StartLine, d.Loc.StartColumn, d.Loc.EndColumn); !ok || x != name {
+				verifViolation("", "a reference range does not cover the identifier in the document it is reported for")
+			}
+		}
+	}
+}
